@@ -87,6 +87,10 @@ Proof. exact BinaryMode_hom. Qed.
 Example Rounded_hypotheses_satisfiable_negative : forall e : Z,
   - bpow radix2 e <> 0 /\ hom (rnd BinaryMode) (- bpow radix2 e) /\ hom (rnd32 BinaryMode) (- bpow radix2 e).
 Proof. exact BinaryMode_hom_neg. Qed.
+(* ... and exact real arithmetic (identity rounding) for EVERY real factor: the four theorems above then are the array-level
+   similarity laws of the model over the reals, for all s <> 0 (s > 0 for the length scaling) *)
+Example Rounded_exact_arithmetic_any_factor : forall s : R, hom (rnd ExactMode) s /\ hom (rnd32 ExactMode) s.
+Proof. exact ExactMode_hom. Qed.
 (* the request transformer of the C04 statement is C04_linear's `with_src` applied to the cell-wise scaled source *)
 Example Rounded_scaled_source_is_with_src : forall (m : RMode) (s : R) (a : args (RndOps m)),
   scale_source_args m s a
